@@ -267,7 +267,7 @@ theorem dedup_merges_normalisation_equal {ρ φ : Type} [DecidableEq φ] (norm :
       exact ih hm' hnd.2
 
 /-- the selection over entries as given **is** the selection over their normalised forms (current tree), so every
-theorem about `selectFiles` / `buildH5` applies: no repeated name, ranges partition `0 … len-1` -/
+result about `selectFiles` / `buildH5` applies: no repeated name, ranges partition `0 … len-1` -/
 theorem select_raw_nodup {ρ φ : Type} [DecidableEq ρ] [DecidableEq φ] (srt : Bool) (norm : ρ → φ) (le : φ → φ → Bool)
     (sel : Selection ρ) (rx : φ → Bool) (fs : List φ) (h : selectFilesRaw srt true true norm le sel rx = .ok fs) :
     fs.Nodup := by
